@@ -72,6 +72,30 @@ func fillDst(r *fw.Rand, dst []byte, mode int) {
 	}
 }
 
+// c04Stale: modes 4 and 5 fill the destination with what a buffer that is marshalled into again and again holds - the encoding of
+// (nearly) this very packet: mode 4 the correct bytes with a few of them changed, mode 5 the correct bytes at 4-byte boundaries and at
+// the end with everything between them stale. A "nothing to do, it is already there" shortcut must compare all of it.
+func c04Stale(r *fw.Rand, dst, want []byte, mode int) {
+	if mode < 4 {
+		return
+	}
+	n := copy(dst, want)
+	if n == 0 {
+		return
+	}
+	if mode == 4 {
+		for k := r.Range(1, 3); k > 0; k-- {
+			dst[r.Intn(n)] ^= byte(1 << uint(r.Intn(8)))
+		}
+		return
+	}
+	for i := n / 2; i < n-1; i++ {
+		if i%4 != 0 {
+			dst[i] ^= 0xA5
+		}
+	}
+}
+
 func dstClass(l, size int) string {
 	switch {
 	case l == 0:
@@ -183,7 +207,7 @@ func c04Packet(c *fw.Ctx, i int) {
 		c.Sample(map[string]any{"packet": gen.Describe(p), "marshal_size": size})
 	}
 	for _, l := range c04Lengths(size, hdr, int(p.PadSize)) {
-		for mode := 0; mode < 4; mode++ {
+		for mode := 0; mode < 6; mode++ {
 			dst := make([]byte, l)
 			spare := func() bool { return false }
 			if mode == 2 {
@@ -194,6 +218,7 @@ func c04Packet(c *fw.Ctx, i int) {
 				dst = nil
 			}
 			fillDst(c.R, dst, mode)
+			c04Stale(c.R, dst, want, mode)
 			before := append([]byte{}, dst...)
 			var n int
 			var e error
@@ -252,13 +277,14 @@ func c04Header(c *fw.Ctx, i int) {
 		c.Sample(map[string]any{"header": gen.Describe(p), "marshal_size": size})
 	}
 	for _, l := range c04Lengths(size, size, 0) {
-		for mode := 0; mode < 4; mode++ {
+		for mode := 0; mode < 6; mode++ {
 			dst := make([]byte, l)
 			spare := func() bool { return false }
 			if mode == 2 {
 				dst, spare = fw.Roomy(dst, size+16)
 			}
 			fillDst(c.R, dst, mode)
+			c04Stale(c.R, dst, want, mode)
 			before := append([]byte{}, dst...)
 			var n int
 			var e error
